@@ -16,12 +16,13 @@ KINDS = {
     "float": ("double", [0.0, 1.5, -2.25, 1e-9, 12345.678]),
     "str": ("string", ["", "a", "hello world", "ünï"]),
     "bytes": ("raw", [{"b": ""}, {"b": "00ff"}, {"b": "6162"}]),
-    "struct": ("struct:Rotation2d", [{"rot": 0.0}, {"rot": 0.5}, {"rot": 1.0}]),
+    # (values a few 1e-10 apart: wpimath's == is tolerant to 1e-9, NetworkTables and the property are not)
+    "struct": ("struct:Rotation2d", [{"rot": 0.0}, {"rot": 0.5}, {"rot": 0.5 + 4e-10}, {"rot": 1.0}, {"rot": 0.5 + 8e-10}]),
     "bools": ("boolean[]", [[True], [False, True], [True, True, False]]),
     "ints": ("int[]", [[1], [2, 3], [0, -1, 2**33]]),
     "floats": ("double[]", [[1.0], [2.5, -3.0], [0.125]]),
     "strs": ("string[]", [["a"], ["b", "c"], ["", "x y"]]),
-    "structs": ("struct:Translation2d[]", [[{"tr": [1.0, 2.0]}], [{"tr": [0.0, 0.0]}, {"tr": [3.0, -1.0]}]]),
+    "structs": ("struct:Translation2d[]", [[{"tr": [1.0, 2.0]}], [{"tr": [0.0, 0.0]}, {"tr": [3.0, -1.0]}], [{"tr": [1.0 + 4e-10, 2.0]}]]),
     # type-hinted empty sequences: the default is empty, the hint decides the type
     "e_ints": ("int[]", [[1], [2, 3], []]),
     "e_floats": ("double[]", [[1.0], [], [2.5, 0.5]]),
@@ -54,6 +55,7 @@ def gen_config(rng):
             else:
                 default = rng.choice(vals)
             tun.append({"attr": f"t{i}_{j}", "kind": kind, "default": default, "form": rng.choice(EMPTY_FORMS),
+                        "quoted": rng.random() < 0.25,      # the annotation is a string (from __future__ import annotations)
                         "tuple_empty": rng.random() < 0.5,
                         "subtable": rng.choice([None, None, "state", "cfg/deep"]), "writeDefault": rng.random() < 0.6})
         classes.append({"name": f"K{i}", "base": base, "tunables": tun,
@@ -184,6 +186,10 @@ def _src_default(t):
     return repr(d)
 
 
+def q(t, ann):
+    return repr(ann) if t.get("quoted") else ann
+
+
 def build_source(cfg):
     L = ["from typing import ClassVar, List", "from collections.abc import Sequence", "from magicbot import tunable",
          "from wpimath.geometry import Rotation2d, Translation2d", ""]
@@ -208,17 +214,17 @@ def build_source(cfg):
                 if t["form"] == "generic":
                     L.append(f"    {t['attr']} = tunable[{ann}]({d}{kw})")
                 elif t["form"] == "classvar":
-                    L.append(f"    {t['attr']}: ClassVar[tunable[{ann}]] = tunable({d}{kw})")
+                    L.append(f"    {t['attr']}: {q(t, f'ClassVar[tunable[{ann}]]')} = tunable({d}{kw})")
                 else:
-                    L.append(f"    {t['attr']}: {ann} = tunable({d}{kw})")
+                    L.append(f"    {t['attr']}: {q(t, ann)} = tunable({d}{kw})")
             elif t["kind"].startswith("e_"):
                 el = ELEM[t["kind"]]
                 if t["form"] == "generic":
                     L.append(f"    {t['attr']} = tunable[Sequence[{el}]]({d}{kw})")
                 elif t["form"] == "classvar":
-                    L.append(f"    {t['attr']}: ClassVar[tunable[list[{el}]]] = tunable({d}{kw})")
+                    L.append(f"    {t['attr']}: {q(t, f'ClassVar[tunable[list[{el}]]]')} = tunable({d}{kw})")
                 else:
-                    L.append(f"    {t['attr']}: List[{el}] = tunable({d}{kw})")
+                    L.append(f"    {t['attr']}: {q(t, f'List[{el}]')} = tunable({d}{kw})")
             else:
                 L.append(f"    {t['attr']} = tunable({d}{kw})")
         L.append("")
@@ -261,9 +267,10 @@ def execute(plan, trace=False):
     def same(kind, a, b):
         """strict equality incl. element types"""
         if kind == "struct":
-            return isinstance(a, Rotation2d) and a == b
+            return isinstance(a, Rotation2d) and a.radians() == b.radians()
         if kind == "structs":
-            return isinstance(a, (list, tuple)) and len(a) == len(b) and all(isinstance(x, Translation2d) and x == y for x, y in zip(a, b))
+            return isinstance(a, (list, tuple)) and len(a) == len(b) and all(
+                isinstance(x, Translation2d) and x.X() == y.X() and x.Y() == y.Y() for x, y in zip(a, b))
         if kind in ("bools", "e_bools"):
             # pyntcore's typed boolean-array getters return 0/1 integers; equality of the values is what C09 states
             return isinstance(a, (list, tuple)) and len(a) == len(b) and all(isinstance(x, (bool, int)) and x in (0, 1) and bool(x) == y for x, y in zip(a, b))
